@@ -324,6 +324,24 @@ def ignore_comment_cases():
     p["settings"].append("set ignore-comments")
     p["recipes"][0]["body"] = [line("# ", Var("undef")), line("[T] x")]
     yield p, {"verdict": "reject-or-never-evaluated", "kind": "undefinedVariable", "offender": ["undef"]}, "plain-comment"
+    # the complete matrix: bodies of two and three lines over {command, command continued with `\`, comment, comment ending
+    # in `\`}, the undefined name in each line in turn, linewise and as a script: a line the runner evaluates must have
+    # been checked
+    kinds = {"cmd": ("[T] x ", ""), "cmd-cont": ("[T] x ", " \\"), "comment": ("# c ", ""), "comment-cont": ("# c ", " \\")}
+    for n in (2, 3):
+        for combo in itertools.product(kinds, repeat=n):
+            for j in range(n):
+                for script in (False, True):
+                    p = base()
+                    p["settings"].append("set ignore-comments")
+                    p["recipes"][0]["script"] = script
+                    body = []
+                    for i, k in enumerate(combo):
+                        pre, post = kinds[k]
+                        body.append(line(pre, Var("undef"), post) if i == j else line(pre + "y" + post))
+                    p["recipes"][0]["body"] = body
+                    yield p, {"verdict": "reject-or-never-evaluated", "kind": "undefinedVariable", "offender": ["undef"]}, \
+                        "matrix-%s-%d-%s" % ("+".join(combo), j, "script" if script else "lines")
 
 
 def random_valid(rng):
